@@ -158,7 +158,7 @@ func init() {
 			}
 			return genGWMix(g, 0.1, "C23-gwmix")
 		},
-		Oracle: oracleC23, Quick: 400, Thorough: 20000,
+		Oracle: oracleC23, Quick: 800, Thorough: 60000,
 		Assumptions: []string{"refsn encodes MQTT-SN 1.2 + bisquitt AUTH correctly (written from the specification, cross-checked against datagrams the 181 repo tests expect)", "datagram transport is the simulated link, not pion/udp"}})
 	Register(&Check{ID: "C24", Level: "exploration",
 		Rule: "random raw-peer sessions biased to decodable-but-untranslatable input (reserved topic-id type, QoS 3 SUBSCRIBE, id 0, DUP+QoS0, empty/wildcard/NUL names, will oddities), every third run the connect-exchange generator of C08/C09 (out-of-turn, repeated, retransmitted and empty WILLTOPIC/WILLMSG/AUTH, slow broker), every fifth gwmix run with 1-2 periods of TCP backpressure (the broker stops reading, the connection takes 0-40 more bytes, writes time out half-way and are resumed); every MQTT packet written to the broker is judged by refmqtt; non-trivial = >= 2 MQTT packets judged",
@@ -183,7 +183,7 @@ func init() {
 			}
 			return p
 		},
-		Oracle: oracleC24, Quick: 400, Thorough: 20000,
+		Oracle: oracleC24, Quick: 800, Thorough: 60000,
 		Assumptions: []string{"refmqtt implements the MQTT 3.1.1 normative statements listed in DESIGN.md §3.5"}})
 }
 
